@@ -89,10 +89,10 @@ ALIASES = [
     (r'sbepp::size_bytes\(header\)', 'size_bytes_header'),
     (r'sbepp::size_bytes\(operator\*\(\)\)', 'size_bytes_entry'),
     (r'ilist\.size\(\)', 'ilist_size'),
-    (r'(?<![\w.>])size\(\)', 'size'),
-    (r'(?<![\w.>])begin\(\)', 'it_begin'),
-    (r'(?<![\w.>])end\(\)', 'it_end'),
-    (r'(?<![\w.>])empty\(\)', 'empty'),
+    (r'(?<![\w.])(?<!->)size\(\)', 'size'),
+    (r'(?<![\w.])(?<!->)begin\(\)', 'it_begin'),
+    (r'(?<![\w.])(?<!->)end\(\)', 'it_end'),
+    (r'(?<![\w.])(?<!->)empty\(\)', 'empty'),
     (r'eos_null::none', 'eos_null_none'),
 ]
 
@@ -317,6 +317,34 @@ def macro_calls(body, base):
     return out
 
 
+def enclosing_conditions(body, pos):
+    """control statements (`if(..)`, `else`, `for(..)`, `while(..)`) whose block encloses body[pos], outermost
+    first, as normalised text.  Lambda bodies and initialiser braces are not control statements."""
+    out = []
+    for b in scan_blocks(body):
+        if b.end is None or not (b.start < pos < b.end):
+            continue
+        h = cxx.normalise_keep_words(b.header)
+        m = re.match(r'^(?:else\s*)?(if|for|while|switch)\s*\(', h)
+        if m:
+            out.append((b.start, h))
+        elif re.match(r'^else$', h):
+            out.append((b.start, 'else'))
+    return [h for _, h in sorted(out)]
+
+
+def cond_arg(conds):
+    """Lean `Option Arg`: none = unconditional; a single `if(C)` whose condition translates = `.expr C`;
+    anything else = `.text`"""
+    if not conds:
+        return 'none'
+    if len(conds) == 1:
+        m = re.match(r'^if\s*\((.*)\)$', conds[0], re.S)
+        if m:
+            return '(some %s)' % to_arg(m.group(1))[0]
+    return '(some (.text %s))' % lean_str(';'.join(conds))
+
+
 def strip_msg(expr):
     """drop the `&& "message"` idiom and redundant outer parentheses"""
     e = re.sub(r'&&\s*"[^"]*"\s*$', '', expr.strip()).strip()
@@ -347,10 +375,10 @@ def site_lean(ident, cls, fn, params, line, checks, first_access, cba, failed=No
     cs = []
     for c in checks:
         if c['kind'] == 'size':
-            cs.append('.size %s %s %s %s %s %s' % (c['b'], c['e'], c['o'], c['s'], c['expanded'],
-                                                  'true' if c['args_read'] else 'false'))
+            cs.append('.size %s %s %s %s %s %s %s' % (c['b'], c['e'], c['o'], c['s'], c['expanded'],
+                                                     'true' if c['args_read'] else 'false', c['cond']))
         else:
-            cs.append('.assert %s %s' % (c['x'], 'true' if c['args_read'] else 'false'))
+            cs.append('.assert %s %s %s' % (c['x'], 'true' if c['args_read'] else 'false', c['cond']))
     doc = '%s::%s(%s), %s:%d' % (cls, fn, params, HPP if cls != 'generated' else GEN, line)
     if failed:
         doc = 'EXTRACTION FAILED: %s ' % failed.replace('-/', '- /') + doc
@@ -373,12 +401,14 @@ inductive Arg
   | text (s : String)
   deriving Repr, Inhabited
 
-/-- `size b e o s expanded argsRead`: the four arguments of an `SBEPP_SIZE_CHECK`, the textual macro
-    expansion as one expression (if translatable) and whether evaluating the arguments reads memory;
-    `assert x argsRead`: an `SBEPP_ASSERT`. -/
+/-- `size b e o s expanded argsRead cond`: the four arguments of an `SBEPP_SIZE_CHECK`, the textual macro
+    expansion as one expression (if translatable), whether evaluating the arguments reads memory, and
+    the control statement the check is nested in (`none`: executed unconditionally; `some (.expr C)`:
+    inside a single `if(C)`; `some (.text ..)`: anything else);
+    `assert x argsRead cond`: an `SBEPP_ASSERT`. -/
 inductive Check
-  | size (b e o s : Arg) (expanded : Option CExpr) (argsRead : Bool)
-  | assert (x : Arg) (argsRead : Bool)
+  | size (b e o s : Arg) (expanded : Option CExpr) (argsRead : Bool) (cond : Option Arg)
+  | assert (x : Arg) (argsRead : Bool) (cond : Option Arg)
   deriving Repr, Inhabited
 
 structure Site where
@@ -401,15 +431,22 @@ def Arg.expr? : Arg → Option CExpr
 /-- the `k`-th check of a site as (begin, end, offset, size, expanded) expressions -/
 def Site.sizeCheck? (s : Site) (k : Nat) : Option (CExpr × CExpr × CExpr × CExpr × CExpr) :=
   match s.checks[k]? with
-  | some (.size b e o sz (some x) _) =>
+  | some (.size b e o sz (some x) _ _) =>
     match b.expr?, e.expr?, o.expr?, sz.expr? with
     | some b, some e, some o, some sz => some (b, e, o, sz, x)
     | _, _, _, _ => none
   | _ => none
 
+/-- under which condition check `k` is executed: `none` = no such check, `some none` = always -/
+def Site.checkCond? (s : Site) (k : Nat) : Option (Option Arg) :=
+  match s.checks[k]? with
+  | some (.size _ _ _ _ _ _ c) => some c
+  | some (.assert _ _ c) => some c
+  | none => none
+
 def Site.assert? (s : Site) (k : Nat) : Option CExpr :=
   match s.checks[k]? with
-  | some (.assert x _) => x.expr?
+  | some (.assert x _ _) => x.expr?
   | _ => none
 
 '''
@@ -474,18 +511,22 @@ def extract(repo, outdir):
                         expanded = to_expr_opt(mm.group(1))
                 checks.append({'kind': 'size', 'b': conv[0][0], 'e': conv[1][0], 'o': conv[2][0], 's': conv[3][0],
                                'expanded': expanded, 'args_read': bool(ARG_READS.search(cxx.normalise_keep_words(args))),
-                               'pos': pos, 'text': [cxx.normalise_keep_words(x) for x in a]})
+                               'pos': pos, 'text': [cxx.normalise_keep_words(x) for x in a],
+                               'conds': enclosing_conditions(body, pos),
+                               'cond': cond_arg(enclosing_conditions(body, pos))})
             else:
                 x = strip_msg(args)
                 checks.append({'kind': 'assert', 'x': to_arg(x)[0],
                                'args_read': bool(ARG_READS.search(cxx.normalise_keep_words(x))), 'pos': pos,
-                               'text': [cxx.normalise_keep_words(x)]})
+                               'text': [cxx.normalise_keep_words(x)],
+                               'conds': enclosing_conditions(body, pos),
+                               'cond': cond_arg(enclosing_conditions(body, pos))})
         cba = acc_pos is None or all(c['pos'] < acc_pos for c in checks)
         idents.append(ident)
         defs.append(site_lean(ident, cls, fn, ptxt, line, checks, first_access, cba))
         report['sites'][ident] = {'cls': cls, 'fn': fn, 'params': ptxt, 'line': line,
-                                  'checks': [{'kind': c['kind'], 'args': c['text'], 'args_read': c['args_read']}
-                                             for c in checks],
+                                  'checks': [{'kind': c['kind'], 'args': c['text'], 'args_read': c['args_read'],
+                                              'conditions': c['conds']} for c in checks],
                                   'first_access': first_access, 'check_before_access': cba}
         return ident
 
